@@ -147,10 +147,12 @@ GUploadKeys(r, t, keys, skip) ==
                 skip |-> skip, id |-> Len(bun) + 1, res |-> IF ok THEN "ok" ELSE "error"])
 
 \* update a local copy of bundle a to bundle b: the directory becomes b
+\* (stale: the local copy is the download made when a was uploaded - delete-files may have rewritten a since)
 GUpdate(a, b) ==
   /\ a \in Ids /\ b \in Ids /\ Visible(a) /\ Visible(b) /\ bun[a].repo \in repos /\ bun[b].repo = bun[a].repo
   /\ UNCHANGED mvars
-  /\ Log([op |-> "update", a |-> a, b |-> b, from |-> TreeJ(bun[a].tree), files |-> TreeJ(bun[b].tree)])
+  /\ \E stale \in {R(BOOLEAN)} :
+       Log([op |-> "update", a |-> a, b |-> b, stale |-> stale, from |-> TreeJ(bun[a].tree), files |-> TreeJ(bun[b].tree)])
 
 \* observations that do not change the state
 GDiff(a, b) ==
